@@ -24,6 +24,38 @@ func init() { register("C05", c05) }
 // tr", …; a renamed field keeps its guard.)
 func guardTableOf(p *core.Prog) map[string]map[string][]string {
 	out := map[string]map[string][]string{}
+	// struct types that only serve as an embedded / private grouping part of another struct of the module
+	partOfOther := map[types.Type]bool{}
+	for _, pkgS := range []string{"inprocgrpc", "httpgrpc", "internal"} {
+		pk := p.Pkgs[core.ModulePath+"/"+pkgS]
+		if pk == nil {
+			continue
+		}
+		sc := pk.Types.Scope()
+		for _, n := range sc.Names() {
+			tn, ok := sc.Lookup(n).(*types.TypeName)
+			if !ok {
+				continue
+			}
+			st, ok := tn.Type().Underlying().(*types.Struct)
+			if !ok {
+				continue
+			}
+			for i := 0; i < st.NumFields(); i++ {
+				f := st.Field(i)
+				if _, isS := f.Type().Underlying().(*types.Struct); !isS {
+					continue
+				}
+				nt, isN := f.Type().(*types.Named)
+				if !isN || nt.Obj().Pkg() == nil || nt.Obj().Pkg() != tn.Pkg() {
+					continue
+				}
+				if f.Embedded() || (!nt.Obj().Exported() && nt.NumMethods() == 0) {
+					partOfOther[nt] = true
+				}
+			}
+		}
+	}
 	for _, pkgS := range []string{"inprocgrpc", "httpgrpc", "internal"} {
 		pk := p.Pkgs[core.ModulePath+"/"+pkgS]
 		if pk == nil {
@@ -40,12 +72,14 @@ func guardTableOf(p *core.Prog) map[string]map[string][]string {
 				continue
 			}
 			n := core.NamedOf(tn.Type()) // canonical (role) name where one is registered
+			if partOfOther[tn.Type()] {
+				continue // its fields are accounted to the struct that embeds / groups it
+			}
 			cur := ""
-			for i := 0; i < st.NumFields(); i++ {
-				f := st.Field(i)
-				ts := core.TypeStr(f.Type())
+			for _, ff := range core.FlatFields(st) {
+				ts := core.TypeStr(ff.Var.Type())
 				if ts == "sync.Mutex" || ts == "sync.RWMutex" {
-					cur = core.FieldName(st, i)
+					cur = ff.Name
 					if out[pkgS+"."+n] == nil {
 						out[pkgS+"."+n] = map[string][]string{}
 					}
@@ -53,7 +87,7 @@ func guardTableOf(p *core.Prog) map[string]map[string][]string {
 					continue
 				}
 				if cur != "" {
-					out[pkgS+"."+n][cur] = append(out[pkgS+"."+n][cur], core.FieldName(st, i))
+					out[pkgS+"."+n][cur] = append(out[pkgS+"."+n][cur], ff.Name)
 				}
 			}
 		}
@@ -182,8 +216,10 @@ func c05(c *core.Ctx) {
 			}
 			st, _ := nt.Underlying().(*types.Struct)
 			have := map[string]bool{}
-			for i := 0; st != nil && i < st.NumFields(); i++ {
-				have[core.FieldName(st, i)] = true
+			if st != nil {
+				for _, ff := range core.FlatFields(st) {
+					have[ff.Name] = true
+				}
 			}
 			for lk, fs := range locks {
 				if !have[lk] {
@@ -221,18 +257,22 @@ func c05(c *core.Ctx) {
 				if !ok {
 					return
 				}
-				tn := core.NamedOf(fa.X.Type())
 				st := derefStructT(fa.X.Type())
 				if st == nil {
 					return
 				}
-				fname := core.FieldName(st, fa.Field)
+				// the field as the rules name it: of the outermost struct when reached through embedded / grouping structs
+				pb, fname, okF := core.FieldOf(fa)
+				if !okF {
+					return
+				}
+				tn := core.NamedOf(pb.Type())
 				lock, guarded := lockOf[tn+"."+fname]
 				if !guarded {
 					return
 				}
 				// constructor: base is a fresh local allocation of this function
-				if core.AllOrigins(fa.X, func(o ssa.Value) bool { al, ok := o.(*ssa.Alloc); return ok && al.Parent() == fn }) && isConstructorLike(fn, fa) {
+				if core.AllOrigins(pb, func(o ssa.Value) bool { al, ok := o.(*ssa.Alloc); return ok && al.Parent() == fn }) && isConstructorLike(fn, fa) {
 					return
 				}
 				// classify the access
@@ -469,7 +509,11 @@ func c05(c *core.Ctx) {
 // isConstructorLike: the access initialises a composite literal (the base
 // Alloc has not yet been stored anywhere / passed to a call before).
 func isConstructorLike(fn *ssa.Function, fa *ssa.FieldAddr) bool {
-	for _, o := range core.Origins(fa.X) {
+	base := fa.X
+	if pb, _, ok := core.FieldOf(fa); ok {
+		base = pb // through embedded / grouping structs: the object being built
+	}
+	for _, o := range core.Origins(base) {
 		al, ok := o.(*ssa.Alloc)
 		if !ok {
 			return false
